@@ -4,6 +4,7 @@ import (
 	"errors"
 	"fmt"
 	"io/fs"
+	"os"
 	"strings"
 
 	"github.com/avfs/avfs"
@@ -398,10 +399,93 @@ type c12Trace struct {
 	Plans    int      `json:"plans_enumerated"`
 }
 
+// runStacked: a FailFS stacked on a FailFS. Each layer keeps its own failure function: what the inner one
+// refuses stays refused whatever is installed, before or afterwards, on the outer one, and the other way round.
+func (p C12) runStacked(c *sim.Ctx, t *sim.Tape, kind string, cfg *concCfg) sim.RunResult {
+	res := sim.RunResult{}
+	w := buildWorld(cfg, 1)
+	inner := failfs.New(w.fs)
+	outer := failfs.New(inner)
+	tr := c12Trace{FS: "failfs/failfs/" + kind}
+	innerRO := t.Chance(500)
+
+	// when each layer gets its function: before or after the stack is built, in either order.
+	steps := [][2]string{{"inner", "before"}, {"outer", "after"}}
+	if t.Chance(500) {
+		steps = [][2]string{{"outer", "after"}, {"inner", "after"}}
+	}
+
+	for _, st := range steps {
+		fn := failfs.FailFunc(failfs.OkFunc)
+		if (st[0] == "inner") == innerRO {
+			fn = failfs.ReadOnlyFunc
+		}
+
+		if st[0] == "inner" {
+			_ = inner.SetFailFunc(fn)
+		} else {
+			_ = outer.SetFailFunc(fn)
+		}
+
+		tr.Calls = append(tr.Calls, fmt.Sprintf("SetFailFunc(%s: read-only=%v)", st[0], (st[0] == "inner") == innerRO))
+	}
+
+	env := &fsx.Env{VFS: outer, NoProbe: true}
+	before := fsx.Snapshot(w.fs, "/", fsx.SnapOpts{Mtime: true, Tops: topNames}).String()
+
+	for i := 0; i < 8; i++ {
+		o := []fsx.Op{
+			{K: "Mkdir", P: "/a/n", Perm: 0o755}, {K: "WriteFile", P: "/a/f", Data: "zz", Perm: 0o644}, {K: "Remove", P: "/b/g"},
+			{K: "Rename", P: "/a/f", Q: "/a/r"}, {K: "Truncate", P: "/a/f", Size: 1}, {K: "Chmod", P: "/a/f", Perm: 0o600},
+			{K: "OpenFile", P: "/a/new", Flag: os.O_WRONLY | os.O_CREATE, Perm: 0o644, H: 0}, {K: "RemoveAll", P: "/a/d"},
+		}[t.Int(8)]
+
+		var got fsx.Result
+
+		op := o
+		_, v, msg := sim.Call1As(0, i, 1000, func() string { got = env.Exec(op); return got.String() })
+
+		tr.Calls = append(tr.Calls, o.String())
+		res.Steps++
+
+		if v == sim.VHarness {
+			res.Harness = msg
+
+			return res
+		}
+
+		after := fsx.Snapshot(w.fs, "/", fsx.SnapOpts{Mtime: true, Tops: topNames}).String()
+
+		if v != sim.VOK || got.Err == "ok" || after != before {
+			res.Trace = tr
+			res.Violation = &sim.Violation{
+				Prop: "C12", Class: "stacked", Sig: "failfs/failfs/" + kind + " " + o.K + " is not refused although one layer of the stack is read-only",
+				Msg: fmt.Sprintf("read-only layer: inner=%v; call %d %s returned %q (%s); base %s", innerRO, i, o, got, v, map[bool]string{true: "unchanged", false: "changed:\n" + fsx.Diff(before, after)}[after == before]),
+			}
+
+			return res
+		}
+	}
+
+	sim.Deactivate()
+	env.CloseAll()
+
+	res.Trace = tr
+	res.TraceHash = sim.HashString(fmt.Sprint(tr.FS, tr.Calls))
+	res.Nontrivial = true
+	c.Count("stacked_failfs_runs", 1)
+
+	return res
+}
+
 func (p C12) Run(c *sim.Ctx, t *sim.Tape) sim.RunResult {
 	kind := []string{"memfs", "orefafs"}[t.Int(2)]
 	cfg := &concCfg{FS: kind, HardLink: t.Chance(500)}
 	cfg.Symlinks = kind == "memfs" && t.Chance(500)
+
+	if t.Chance(60) {
+		return p.runStacked(c, t, kind, cfg)
+	}
 	calls := c12Gen(t)
 	res := sim.RunResult{}
 	tr := c12Trace{FS: "failfs/" + kind}
